@@ -57,6 +57,9 @@ def scenarios(tier, seed):
       for damp in (0, 1):
         for act in ACTS:
           out.append(dict(parents=list(parents), joints=list(joints), damp=damp, act=act, k=k, limits=0, variant=v))
+      # polynomial (velocity-dependent) joint damping: the Euler implicit-damping matrix uses d(force)/d(vel), which needs |v|
+      # for the quadratic term -- states carry velocities of both signs
+      out.append(dict(parents=list(parents), joints=list(joints), damp=2, act="none" if "none" in ACTS else ACTS[0], k=k, limits=0, variant=v))
       if tier == "thorough":
         out.append(dict(parents=list(parents), joints=list(joints), damp=1, act="filter", k=5, limits=1, variant=v))
   return out
@@ -102,7 +105,11 @@ def build_xml(scn):
   v = scn["variant"]
 
   def jattr(i, kind):
-    s = f'damping="{(0.4, 0.25, 0.6, 0.15)[v]}" armature="0.02"' if scn["damp"] else 'armature="0.02"'
+    if scn["damp"] == 2:
+      b0 = (0.4, 0.25, 0.6, 0.15)[v]
+      s = f'damping="{b0} {1.5 * b0:.3g} {0.5 * b0:.3g}" armature="0.02"'
+    else:
+      s = f'damping="{(0.4, 0.25, 0.6, 0.15)[v]}" armature="0.02"' if scn["damp"] else 'armature="0.02"'
     if scn.get("limits") and kind in ("hinge", "hingeslide"):
       s += ' limited="true" range="-0.75 0.6"'
     return s
